@@ -132,6 +132,7 @@ def usolution(posx_in, tau_in, epsilon_in):
     eta_lo = 0.0
     eta_hi = 1.0
     sum1 = 0.0
+    xi1_prev = 0.0
     jwant = 1
     bracket = (gamma_one_root(eta_lo) * gamma_one_root(eta_hi)) <= 0.0
     if not bracket:
@@ -144,13 +145,16 @@ def usolution(posx_in, tau_in, epsilon_in):
             xi1 = quad(upart1, eta_lo, eta_int, epsabs=eps)[0]
             sum1  = sum1 + xi1
             eta_lo = eta_int
-            if abs(xi1) <= eps2:
+            # a lone small piece between large ones is a zero of the envelope, not the tail
+            if abs(xi1) <= eps2 and abs(xi1_prev) <= 100.0 * eps2:
                 break
+            xi1_prev = xi1
 
     # integrand may not oscillate for small values of posx
     eta_lo = 0.0
     eta_hi = 1.0
     sum2 = 0.0
+    xi2_prev = 0.0
     jwant = 1
     bracket = (gamma_two_root(eta_lo) * gamma_two_root(eta_hi)) <= 0.0
     if not bracket:
@@ -163,8 +167,10 @@ def usolution(posx_in, tau_in, epsilon_in):
             xi2 = quad(upart2, eta_int, eta_hi, epsabs=eps)[0]
             sum2  = sum2 + xi2
             eta_hi = eta_int
-            if abs(xi2) <= eps2:
+            # a lone small piece between large ones is a zero of the envelope, not the tail
+            if abs(xi2) <= eps2 and abs(xi2_prev) <= 100.0 * eps2:
                 break
+            xi2_prev = xi2
 
     return 1.0 - 2.0 * rt3opi * sum1 - rt3opi * exp(-tau) * sum2
 
@@ -200,6 +206,7 @@ def vsolution(posx_in, tau_in, epsilon_in, uans):
     eta_lo = 0.0
     eta_hi = 1.0
     sum1 = 0.0
+    xi1_prev = 0.0
     jwant = 1
     bracket = gamma_three_root(eta_lo) * gamma_three_root(eta_hi) <= 0.0
     if not bracket:
@@ -212,13 +219,16 @@ def vsolution(posx_in, tau_in, epsilon_in, uans):
             xi1 = quad(vpart1, eta_int, eta_hi, epsabs=eps)[0]
             sum1 = sum1 + xi1
             eta_hi = eta_int
-            if abs(xi1) <= eps2:
+            # a lone small piece between large ones is a zero of the envelope, not the tail
+            if abs(xi1) <= eps2 and abs(xi1_prev) <= 100.0 * eps2:
                 break
+            xi1_prev = xi1
 
     # integrand may not oscillate for small values of posx
     eta_lo = 0.0
     eta_hi = 1.0
     sum2 = 0.0
+    xi2_prev = 0.0
     jwant = 1
     bracket = gamma_two_root(eta_lo) * gamma_two_root(eta_hi) <= 0.0
     if not bracket:
@@ -231,8 +241,10 @@ def vsolution(posx_in, tau_in, epsilon_in, uans):
             xi2 = quad(vpart2, eta_int, eta_hi, epsabs=eps)[0]
             sum2 = sum2 + xi2
             eta_hi = eta_int
-            if abs(xi2) <= eps2:
+            # a lone small piece between large ones is a zero of the envelope, not the tail
+            if abs(xi2) <= eps2 and abs(xi2_prev) <= 100.0 * eps2:
                 break
+            xi2_prev = xi2
 
     return uans - 2.0 * rt3opi * sum1 + rt3opi * exp(-tau) * sum2
 
